@@ -314,6 +314,18 @@ var codeShapes = []string{
 	// K-rawnest: the end tag of an element that browsers tokenize as raw text (iframe, noscript with scripting, xmp,
 	// noembed, noframes) written inside an attribute value or a comment; the engine does not model these elements
 	`<noscript><p title="</noscript><script>@@</script>">`, `<iframe><p title="</iframe><script>@@</script>">`, `<xmp><p title='</xmp><style>@@</style>'>`, `<noembed><!-- </noembed><script>@@</script> -->`, `<noframes><a href="</noframes><script>@@//">`,
+	// an attribute name that is empty in one branch, followed by a static value; a branch that ends after name + white space
+	`<a {{if .F}}href{{end}}="/p?q=" title="@@">`, `<a {{with .F}}href{{end}}='x' title='@@'>`, `<link {{if .C}}title {{end}}rel="stylesheet" rel="icon" href="@@">`, `<link {{if .F}}title {{end}}rel="stylesheet" rel="icon" href="@@">`,
+	`{{if .C}}<a{{else}}</a{{end}} /="/p?q=" data-x="@@">`,
+	// complete templates (no hole): recursive helpers whose end context differs from the assumed one in what eq ignores
+	`{{define "r"}}{{if .N}}{{template "r" .N}}{{.V}}{{else}}</div>{{if .C}}<script{{else}}<div{{end}}>{{end}}{{end}}<div>{{template "r" .}}`,
+	`{{define "r"}}{{if .N}}{{template "r" .N}}{{.V}}{{else}}"></a><a href="{{end}}{{end}}<a href="/x/{{template "r" .}}">`,
+	`{{define "r"}}/{{if .N}}{{template "r" .N}}{{end}}{{end}}<script src="{{template "r" .}}x{{.V}}"></script>`,
+	`{{define "q"}}{{if .F}}"></a><a href="/x/{{end}}{{end}}<a href="/x/{{template "q" .}}{{.V}}"></a><a href="{{template "q" .}}{{.V}}">`,
+	`{{define "q"}}"{{end}}<link rel="icon{{template "q"}} href="{{.V}}"><link rel="stylesheet{{template "q"}} href="{{.V}}">`,
+	`{{define "h"}}type="b"{{end}}<script type="b" {{template "h"}}></script>{{if .C}}<script type="text/plain" {{template "h"}}>{{else}}<script type="b">{{end}}{{.V}}</script>`,
+	// K-mangle: a helper with an action, called inside the still open rel value of two links
+	`{{define "hq"}}" href="{{.V}}{{end}}<link rel="icon{{template "hq" .}}"><link rel="stylesheet{{template "hq" .}}">`,
 	// a DOCTYPE ends at its first '>'
 	`<!DOCTYPE html <p title="><script>@@</script>">`, `<!doctype <a href='><style>@@</style>'>`,
 	// loop bodies that end in another context than they start in, or glue names on re-entry
@@ -417,6 +429,15 @@ func (c CodeCase) render() (string, map[string]interface{}) {
 	if c.Typed != "" && c.Wrap == "print" {
 		act = "{{.V}}"
 	}
+	if !strings.Contains(c.Shape, "@@") {
+		// a complete template: its recursion runs one level deep
+		inner := map[string]interface{}{"Z": 1}
+		for k, x := range data {
+			inner[k] = x
+		}
+		data["N"] = inner
+		return c.Shape, data
+	}
 	if c.Wrap == "rec" || c.Wrap == "recbal" {
 		// a helper that calls itself: "recbal" ends in the context it starts in, "rec" also holds the rest of the
 		// template text, so that it ends in another context than the one of its call site
@@ -482,6 +503,9 @@ func checkCode(c CodeCase) evid.Outcome {
 		}
 		if rawnestShape.MatchString(c.Shape) {
 			v.Finding = "K-rawnest"
+		}
+		if strings.Contains(c.Shape, `rel="icon{{template "hq"`) {
+			v.Finding = "K-mangle"
 		}
 		return v
 	}
